@@ -9,7 +9,8 @@
    hypothesis (no_F18, no_tpi_on_non_invite, no_F22, no_F26, no_broken_power_levels) and a
    ..._refuted witness shows the difference on a concrete input. *)
 From Verif Require Import Lib.Bytes Json.Ast Auth.GoJson Auth.Ids Auth.Types Auth.Versions Auth.Abs
-     Auth.Decide Auth.Model Auth.AllowedSpec Auth.PLSpec Auth.PLProofs Auth.SpecProofs.
+     Auth.Decide Auth.Model Auth.AllowedSpec Auth.PLSpec Auth.PLProofs Auth.SpecProofs
+     Auth.Departures Auth.DepartureProofs Auth.DepartureExamples.
 Open Scope Z_scope.
 
 (* the rules accept exactly when the library's procedure answers "allowed" *)
@@ -234,6 +235,203 @@ Proof.
   split; vm_compute; reflexivity.
 Qed.
 
+(* ====================================================================================== *)
+(* The 13 documented departures (DESIGN.md 6.1) as switches: Auth/Departures.v.
+   decide_spec_with all_on is the rule list the theorems above are about; decide_spec_with
+   all_off = decide_spec_literal is the literal text of the specification. spec_extra carries
+   what the literal text needs beyond the abstract record (computed from the JSON by extra_of). *)
+
+Theorem rules_are_all_departures_on :
+  forall sv a x, decide_spec_with all_on sv a x = decide_spec sv a.
+Proof. exact with_all_on. Qed.
+
+Theorem literal_is_all_departures_off :
+  forall sv a x, decide_spec_literal sv a x = decide_spec_with all_off sv a x.
+Proof. reflexivity. Qed.
+
+(* switching off departure k alone changes the verdict only under its condition cond_k *)
+Theorem dep_only_differs_when :
+  forall sv a x k, In k dep_numbers ->
+    decide_spec_with (only_off k) sv a x <> decide_spec_with all_on sv a x ->
+    cond_nth sv a x k = true.
+Proof. exact only_off_differs_when. Qed.
+
+(* each from its own switch lemma (so that its Print Assumptions walks that proof only) *)
+Ltac dep_k lem :=
+  let Hc := fresh "Hc" in
+  intros sv a x; apply differs_bool; intro Hc; unfold only_off, all_on; simpl; apply lem; exact Hc.
+
+(* 1: leave -> leave by oneself *)
+Theorem dep_1_only_differs_when : forall sv a x,
+  decide_spec_with (only_off 1) sv a x <> decide_spec_with all_on sv a x -> cond1 a = true.
+Proof. dep_k switch1. Qed.
+(* 2: unbanning while the kick test or the target-below-sender test fails *)
+Theorem dep_2_only_differs_when : forall sv a x,
+  decide_spec_with (only_off 2) sv a x <> decide_spec_with all_on sv a x -> cond2 sv a = true.
+Proof. dep_k switch2. Qed.
+(* 3: no power-levels event *)
+Theorem dep_3_only_differs_when : forall sv a x,
+  decide_spec_with (only_off 3) sv a x <> decide_spec_with all_on sv a x -> cond3 a = true.
+Proof. dep_k switch3. Qed.
+(* 4: content.creator is not the sender of the create event (v1-10) *)
+Theorem dep_4_only_differs_when : forall sv a x,
+  decide_spec_with (only_off 4) sv a x <> decide_spec_with all_on sv a x -> cond4 sv a x = true.
+Proof. dep_k switch4. Qed.
+(* 5: a power-levels event that adds or removes a key or an entry *)
+Theorem dep_5_only_differs_when : forall sv a x,
+  decide_spec_with (only_off 5) sv a x <> decide_spec_with all_on sv a x -> cond5 a x = true.
+Proof. dep_k switch5. Qed.
+(* 6: a power-levels event before v10 with a float or padded-string level *)
+Theorem dep_6_only_differs_when : forall sv a x,
+  decide_spec_with (only_off 6) sv a x <> decide_spec_with all_on sv a x -> cond6 a x = true.
+Proof. dep_k switch6. Qed.
+(* 7: join or knock under knock_restricted before v10 *)
+Theorem dep_7_only_differs_when : forall sv a x,
+  decide_spec_with (only_off 7) sv a x <> decide_spec_with all_on sv a x -> cond7 sv a = true.
+Proof. dep_k switch7. Qed.
+(* 8: redaction: rule set selected by the create content / sender's own domain *)
+Theorem dep_8_only_differs_when : forall sv a x,
+  decide_spec_with (only_off 8) sv a x <> decide_spec_with all_on sv a x -> cond8 a x = true.
+Proof. dep_k switch8. Qed.
+(* 9: m.room.aliases in version 6 or later *)
+Theorem dep_9_only_differs_when : forall sv a x,
+  decide_spec_with (only_off 9) sv a x <> decide_spec_with all_on sv a x -> cond9 sv a = true.
+Proof. dep_k switch9. Qed.
+(* 10: join by an invited or joined user under a rule other than invite/knock/restricted/public *)
+Theorem dep_10_only_differs_when : forall sv a x,
+  decide_spec_with (only_off 10) sv a x <> decide_spec_with all_on sv a x -> cond10 sv a = true.
+Proof. dep_k switch10. Qed.
+(* 11: never: the clause is reached only by users who are neither invited nor joined, and those
+   are refused under the literal text and under the invite rule alike; the departure describes
+   the structure of the code, no verdict depends on it *)
+Theorem dep_11_never_differs : forall sv a x,
+  decide_spec_with (only_off 11) sv a x = decide_spec_with all_on sv a x.
+Proof. intros sv a x. unfold only_off, all_on; simpl. apply switch11. reflexivity. Qed.
+(* 12: duplicate or superfluous auth events *)
+Theorem dep_12_only_differs_when : forall sv a x,
+  decide_spec_with (only_off 12) sv a x <> decide_spec_with all_on sv a x -> cond12 x = true.
+Proof. dep_k switch12. Qed.
+(* 13: own knock -> leave before v7; a first join not sent by the creator *)
+Theorem dep_13_only_differs_when : forall sv a x,
+  decide_spec_with (only_off 13) sv a x <> decide_spec_with all_on sv a x -> cond13 sv a = true.
+Proof. dep_k switch13. Qed.
+
+(* the literal text and the rules differ only where the condition of some departure holds *)
+Theorem literal_differs_only_under_departures :
+  forall sv a x, decide_spec_literal sv a x <> decide_spec sv a ->
+    exists k, In k dep_numbers /\ cond_nth sv a x k = true.
+Proof. exact DepartureProofs.literal_differs_only_under_departures. Qed.
+
+(* the same on JSON events: spec_extra and the record are read from the events *)
+Theorem literal_differs_only_under_departures_json :
+  forall sig_ok ver e auths l r,
+    allowed_spec_with all_off sig_ok ver e auths = Some l ->
+    allowed_spec_with all_on sig_ok ver e auths = Some r -> l <> r ->
+    exists sf sv k, spec_flags_of ver = Some sf /\ spec_rules_of ver = Some sv /\ In k dep_numbers
+      /\ cond_nth sv (abs sig_ok sf e auths) (extra_of ver e auths) k = true.
+Proof.
+  intros sig_ok ver e auths l r Hl Hr Hne. unfold allowed_spec_with in *.
+  destruct (spec_flags_of ver) as [sf|]; [|discriminate].
+  destruct (spec_rules_of ver) as [sv|]; [|discriminate].
+  inversion Hl; inversion Hr; subst. rewrite with_all_on in Hne.
+  destruct (DepartureProofs.literal_differs_only_under_departures sv _ _ Hne) as (k & Hin & Hc).
+  exists sf, sv, k. auto.
+Qed.
+
+(* ---- every condition is reachable: the two readings really differ there ---- *)
+Example dep_1_reachable_concrete :
+  let i := set_new_member (ex_member MsLeave) (set_target_member (Some MsLeave) (set_sender_member (Some MsLeave) ex_base)) in
+  decide_spec_with (only_off 1) rules_v10 i ex_extra = false /\ decide_spec_with all_on rules_v10 i ex_extra = true.
+Proof. vm_compute. split; reflexivity. Qed.
+
+Example dep_2_reachable_concrete :
+  let i := set_pl (ex_pl 50 60) (set_state_key (Some bob) (set_new_member (ex_member MsLeave)
+             (set_target_member (Some MsBan) ex_base))) in
+  decide_spec_with (only_off 2) rules_v10 i ex_extra = false /\ decide_spec_with all_on rules_v10 i ex_extra = true.
+Proof. vm_compute. split; reflexivity. Qed.
+
+Definition ex_topic_no_pl (sender : bytes) : auth_input :=
+  set_sender sender (set_kind KOther (set_type (bs "m.room.topic") (set_state_key (Some [])
+    (set_pl_present false (set_pl (pl_absent creator) ex_base))))).
+
+Example dep_3_reachable_concrete :
+  decide_spec_with (only_off 3) rules_v10 (ex_topic_no_pl alice) ex_extra = true
+  /\ decide_spec_with all_on rules_v10 (ex_topic_no_pl alice) ex_extra = false.
+Proof. vm_compute. split; reflexivity. Qed.
+
+Example dep_4_reachable_concrete :
+  let x := {| sx_creator := Some alice; sx_old_named := []; sx_new_named := []; sx_levels_literal := true;
+              sx_selection_ok := true; sx_event_id_domain := None; sx_v1v2 := false |} in
+  decide_spec_with (only_off 4) rules_v10 (ex_topic_no_pl creator) x = false
+  /\ decide_spec_with all_on rules_v10 (ex_topic_no_pl creator) x = true.
+Proof. vm_compute. split; reflexivity. Qed.
+
+Definition ex_pl_event (level : Z) : auth_input :=
+  set_kind KPowerLevels (set_type (bs "m.room.power_levels") (set_state_key (Some [])
+    (set_pl (ex_pl level 50) (set_new_pl (Some (ex_pl level 50)) ex_base)))).
+
+Example dep_5_reachable_concrete :
+  let x := {| sx_creator := Some creator; sx_old_named := []; sx_new_named := [k_ban]; sx_levels_literal := true;
+              sx_selection_ok := true; sx_event_id_domain := None; sx_v1v2 := false |} in
+  decide_spec_with (only_off 5) rules_v10 (ex_pl_event 40) x = false
+  /\ decide_spec_with all_on rules_v10 (ex_pl_event 40) x = true.
+Proof. vm_compute. split; reflexivity. Qed.
+
+Example dep_6_reachable_concrete :
+  let x := {| sx_creator := Some creator; sx_old_named := []; sx_new_named := []; sx_levels_literal := false;
+              sx_selection_ok := true; sx_event_id_domain := None; sx_v1v2 := false |} in
+  decide_spec_with (only_off 6) rules_v8 (ex_pl_event 50) x = false
+  /\ decide_spec_with all_on rules_v8 (ex_pl_event 50) x = true.
+Proof. vm_compute. split; reflexivity. Qed.
+
+Example dep_7_reachable_concrete :
+  let i := set_join_rule JrKnockRestricted (set_new_member (ex_member MsKnock)
+             (set_target_member (Some MsLeave) (set_sender_member (Some MsLeave) ex_base))) in
+  decide_spec_with (only_off 7) rules_v8 i ex_extra = false /\ decide_spec_with all_on rules_v8 i ex_extra = true.
+Proof. vm_compute. split; reflexivity. Qed.
+
+Example dep_8_reachable_concrete :
+  let c1 := {| c_room := bs "!r:hs1"; c_event_id := bs "$c"; c_sender := creator; c_sender_domain := bs "hs1";
+               c_federate := true; c_room_version := Some (bs "1"); c_additional := [] |} in
+  let i := set_create (Some c1) (set_kind KRedaction (set_type (bs "m.room.redaction") (set_state_key None
+             (set_pl (ex_pl 0 50) (set_redacts_domain (Some (bs "hs9")) ex_base))))) in
+  decide_spec_with (only_off 8) rules_v10 i ex_extra = true /\ decide_spec_with all_on rules_v10 i ex_extra = false.
+Proof. vm_compute. split; reflexivity. Qed.
+
+Example dep_9_reachable_concrete :
+  let i := set_kind KAliases (set_type (bs "m.room.aliases") (set_state_key (Some (bs "hs1"))
+             (set_sender_member (Some MsLeave) ex_base))) in
+  decide_spec_with (only_off 9) rules_v6 i ex_extra = false /\ decide_spec_with all_on rules_v6 i ex_extra = true.
+Proof. vm_compute. split; reflexivity. Qed.
+
+Definition ex_join_invited_private : auth_input :=
+  set_join_rule JrOther (set_new_member (ex_member MsJoin)
+    (set_target_member (Some MsInvite) (set_sender_member (Some MsInvite) ex_base))).
+
+Example dep_10_reachable_concrete :
+  decide_spec_with (only_off 10) rules_v10 ex_join_invited_private ex_extra = false
+  /\ decide_spec_with all_on rules_v10 ex_join_invited_private ex_extra = true.
+Proof. vm_compute. split; reflexivity. Qed.
+
+(* 11: a restricted join without authoriser by somebody who left: refused under both readings *)
+Example dep_11_agree_concrete :
+  let i := set_join_rule JrRestricted (set_new_member (ex_member MsJoin)
+             (set_target_member (Some MsLeave) (set_sender_member (Some MsLeave) ex_base))) in
+  decide_spec_with (only_off 11) rules_v10 i ex_extra = false /\ decide_spec_with all_on rules_v10 i ex_extra = false.
+Proof. vm_compute. split; reflexivity. Qed.
+
+Example dep_12_reachable_concrete :
+  let x := {| sx_creator := Some creator; sx_old_named := []; sx_new_named := []; sx_levels_literal := true;
+              sx_selection_ok := false; sx_event_id_domain := None; sx_v1v2 := false |} in
+  decide_spec_with (only_off 12) rules_v10 ex_join_invited_private x = false
+  /\ decide_spec_with all_on rules_v10 ex_join_invited_private x = true.
+Proof. vm_compute. split; reflexivity. Qed.
+
+Example dep_13_reachable_concrete :
+  let i := set_new_member (ex_member MsLeave) (set_target_member (Some MsKnock) (set_sender_member (Some MsKnock) ex_base)) in
+  decide_spec_with (only_off 13) rules_v6 i ex_extra = false /\ decide_spec_with all_on rules_v6 i ex_extra = true.
+Proof. vm_compute. split; reflexivity. Qed.
+
 Print Assumptions allowed_refines_spec.
 Print Assumptions spec_table_agrees.
 Print Assumptions generated_switches_match_spec.
@@ -251,3 +449,21 @@ Print Assumptions v12_versions_privileged.
 Print Assumptions F22_refuted.
 Print Assumptions F26_refuted.
 Print Assumptions F18_refuted.
+Print Assumptions rules_are_all_departures_on.
+Print Assumptions literal_is_all_departures_off.
+Print Assumptions dep_only_differs_when.
+Print Assumptions dep_1_only_differs_when.
+Print Assumptions dep_2_only_differs_when.
+Print Assumptions dep_3_only_differs_when.
+Print Assumptions dep_4_only_differs_when.
+Print Assumptions dep_5_only_differs_when.
+Print Assumptions dep_6_only_differs_when.
+Print Assumptions dep_7_only_differs_when.
+Print Assumptions dep_8_only_differs_when.
+Print Assumptions dep_9_only_differs_when.
+Print Assumptions dep_10_only_differs_when.
+Print Assumptions dep_11_never_differs.
+Print Assumptions dep_12_only_differs_when.
+Print Assumptions dep_13_only_differs_when.
+Print Assumptions literal_differs_only_under_departures.
+Print Assumptions literal_differs_only_under_departures_json.
